@@ -76,7 +76,11 @@ def run_case(tier, seed, index, spec=None):
     info = dict(mode=mode)
     if mode in ('equal-by-construction', 'perturbed'):
         c1 = p1['default']
-        c2 = c1 if (not covered or rng.random() < 0.5) else rng.choice([x for x in (0.0, 1.0, 2.5, -1.0) if x != c1])
+        # different defaults: invisible when the two supports cover the tensor (the tensors can still be equal), and in a
+        # quarter of the other cases VISIBLE in the holes -- every stored entry still matches what the other side denotes
+        # there, so only the comparison of the two defaults can tell the tensors apart
+        same_default = rng.random() < (0.75 if not covered else 0.5)
+        c2 = c1 if same_default else rng.choice([x for x in (0.0, 1.0, 2.5, -1.0) if x != c1])
         p2['default'] = c2
         for v, idx in s1.items():
             set_phys(p1, idx, c2 if v not in s2 else rng.choice(vals))
